@@ -447,6 +447,9 @@ func (u *Unit) ghostHeapSort(g GhostField) string {
 	if strings.HasPrefix(g.Sort, "iface:") {
 		return arraySort("Iface", g.Sort[6:])
 	}
+	if g.Type == "*" {
+		return arraySort("Iface", g.Sort) // wildcard ghost fields are keyed by the (boxed) object
+	}
 	return arraySort(key, g.Sort)
 }
 
